@@ -123,7 +123,9 @@ CHECKS = {
              "histories of 5..40 operations with several episodes. Also: the per-call streams of C12/C11/C13 re-judged "
              "with the C03 component of their replies; six real example simulations driven through their own "
              "reset()/step() with every dumped world judged by the Lean invariant (gwinv, runtime monitor); writes "
-             "through the health / ammo setters. Finding K4 (a drawn initial health of exactly 0.0 leaves an inactive "
+             "through the health / ammo setters; histories with DECIMAL healths and strengths (not dyadic: floating point "
+             "rounds where the exact-rational model does not), monitor only: every dumped world judged by the Lean "
+             "invariant, no model outcome compared. Finding K4 (a drawn initial health of exactly 0.0 leaves an inactive "
              "agent on the grid) is the out-of-domain stream healthClosed: reproduced on the real code, open. The packaged "
              "examples TeamBattleSim, PredatorPreyResourcesSim, MazeNavigationSim, MultiMazeNavigationSim and "
              "TrafficCorridorSimulation are modelled instances (examples_step_is_history, examples_reachable_WInv, "
